@@ -20,6 +20,8 @@ import (
 type parentContext interface {
 	addMessage(*MessageBuilder)
 	addEnum(*enumBuilder)
+	// hasType is true when a message or enum of that name was added already.
+	hasType(name string) bool
 }
 
 type fieldContext struct {
@@ -54,6 +56,16 @@ func (rr *conversionVisitor) addError(node sourcewalk.SourceNode, err error) {
 	}
 	log.Printf("walker error at %s: %v", strings.Join(node.Path, "."), err)
 	rr.root.errors = append(rr.root.errors, err)
+}
+
+// duplicateType reports a message or enum whose name is already taken by an
+// earlier type of the file or message it belongs to.
+func (ww *conversionVisitor) duplicateType(node sourcewalk.SourceNode, name string) bool {
+	if !ww.parentContext.hasType(name) {
+		return false
+	}
+	ww.addErrorf(node, "%s is defined more than once", name)
+	return true
 }
 
 func (ww *conversionVisitor) inMessage(msg *MessageBuilder) *conversionVisitor {
@@ -187,6 +199,9 @@ func (ww *conversionVisitor) visitTopicNode(tn *sourcewalk.TopicNode) {
 }
 
 func (ww *conversionVisitor) visitObjectNode(node *sourcewalk.ObjectNode) {
+	if ww.duplicateType(node.Source, node.Name) {
+		return
+	}
 
 	message := blankMessage(node.Name)
 
@@ -222,6 +237,11 @@ func (ww *conversionVisitor) visitObjectNode(node *sourcewalk.ObjectNode) {
 			propertyDesc, err := buildProperty(inMessageWalker, node)
 			if err != nil {
 				ww.addError(node.Source, err)
+			}
+
+			if propertyDesc != nil && message.hasField(propertyDesc.GetName()) {
+				ww.addErrorf(node.Source, "property %s: the name %s is already used by an earlier property of %s", node.Schema.Name, propertyDesc.GetName(), message.descriptor.GetName())
+				return nil
 			}
 
 			if propertyDesc.GetProto3Optional() {
@@ -262,6 +282,9 @@ func (ww *conversionVisitor) visitOneofNode(node *sourcewalk.OneofNode) {
 		}
 		schema.Name = strcase.ToCamel(ww.field.name)
 	}
+	if ww.duplicateType(node.Source, schema.Name) {
+		return
+	}
 
 	message := blankMessage(schema.Name)
 	message.descriptor.OneofDecl = []*descriptorpb.OneofDescriptorProto{{
@@ -288,6 +311,10 @@ func (ww *conversionVisitor) visitOneofNode(node *sourcewalk.OneofNode) {
 			propertyDesc, err := buildProperty(ww, node)
 			if err != nil {
 				ww.addError(node.Source, err)
+				return nil
+			}
+			if message.hasField(propertyDesc.GetName()) {
+				ww.addErrorf(node.Source, "option %s: the name %s is already used by an earlier option of %s", node.Schema.Name, propertyDesc.GetName(), message.descriptor.GetName())
 				return nil
 			}
 			propertyDesc.OneofIndex = gl.Ptr(int32(0))
@@ -319,6 +346,9 @@ func (ww *conversionVisitor) visitOneofNode(node *sourcewalk.OneofNode) {
 }
 
 func (ww *conversionVisitor) visitEnumNode(node *sourcewalk.EnumNode) {
+	if ww.duplicateType(node.Source, node.Schema.Name) {
+		return
+	}
 
 	prefix := node.Schema.Prefix
 	if prefix == "" {
